@@ -1,6 +1,6 @@
 /-
   C05 — candidate clusters group protoclusters by the documented kinds.
-  Property theorems only; helper lemmas in ASV/Proofs/{MergeSets,Candidates,Coverage,Members,SpecBridge}.lean.
+  Property theorems only; helper lemmas in ASV/Proofs/{MergeSets,Candidates,Coverage,Members,SpecBridge,NoDup,Passes}.lean.
 
   Model: ASV/Model/Candidates.lean (formation.py after the repairs D16, D19, D501–D506).
   `formation ps wrap` is `create_candidates_from_protoclusters(protoclusters, circular_wrap_point)`;
@@ -8,7 +8,7 @@
   only hypothesis on the input is `ps.Nodup` (no protocluster object supplied twice), and only where
   counting is involved.  Every theorem holds for all inputs, linear and circular, of any size.
 -/
-import ASV.Proofs.SpecBridge
+import ASV.Proofs.Passes
 namespace ASV.C05
 open ASV ASV.CC ASV.CC.Spec
 
@@ -42,16 +42,7 @@ theorem mergeSets_protoclusters (G : List (List Proto)) :
   · rintro ⟨r0, h0, ha, hb⟩
     exact ⟨sortProtos r0, mem_mergeSets.2 ⟨r0, h0, rfl⟩, mem_sortProtos.2 ha, mem_sortProtos.2 hb⟩
 
-/-- D16 on the code before the fix: one forward pass leaves `{2,3}` apart from `{1,3,5}` -/
-def singlePassMerge (groups : List (List Nat)) : List (List Nat) :=
-  let rec go : Nat → List (List Nat) → List (List Nat)
-    | 0, l => l
-    | _, [] => []
-    | n + 1, first :: rest =>
-      if first.isEmpty then first :: go n rest
-      else let p := absorbPass first rest; p.1 :: go n p.2.1
-  (go groups.length groups).filter fun g => !g.isEmpty
-
+/-- D16 on the code before the fix (`singlePassMerge`: one forward pass) against the repaired loop -/
 theorem D16_single_pass_not_transitive :
     singlePassMerge [[1, 5], [2, 3], [3, 5]] = [[1, 5, 3], [2, 3]] ∧
     mergeSetsCore (fun g => minList (g.map Int.ofNat)) [[1, 5], [2, 3], [3, 5]] = [[1, 5, 3, 2]] := by
@@ -119,6 +110,94 @@ theorem candidate_location_exact_on_line (ps : List Proto) (cs : List Cand) (hn 
   injection this with this
   rw [this]
   simp [List.map_map, Function.comp_def]
+
+/-! ### 4. no two candidates with the same coordinates and the same members -/
+
+/-- on a linear record: distinct non-single candidates have distinct coordinates (the table key,
+    both ends of the hull, determines the hull), singles are for distinct protoclusters, and a
+    single never has the members of a larger candidate -/
+theorem no_duplicate_candidates_linear (ps : List Proto) (cs : List Cand) (hn : ps.Nodup)
+    (hlin : ∀ p, p ∈ ps → p.loc.parts ≠ [] ∧ bridgesOrigin p.loc = false)
+    (h : formation ps none = .ok cs) : noDuplicates cs = true :=
+  formation_noDuplicates_linear hn hlin h
+
+/-- Full statement (any record).  On a circular record the table key of a *replacement* candidate
+    (promotion) is the key of the group that triggered it, and that the merged span has the same two
+    ends needs `connect_locations` on a ring (C04: correspondence only); the executable `noDuplicates`
+    is evaluated on every implementation output instead. -/
+def NoDuplicateCandidates : Prop :=
+  ∀ (ps : List Proto) (wrap : Option Int) (cs : List Cand), ps.Nodup → formation ps wrap = .ok cs → noDuplicates cs = true
+
+/-! ### 5. the kinds: what each pass groups -/
+
+/-- Chemical hybrids (any record).  (1) protoclusters linked by a chain of shared defining genes end up
+    in one hybrid group; (2) every hybrid group is one such chain class `m` (≥ 2 protoclusters) plus
+    protoclusters that share no gene with any other protocluster and whose core lies inside the
+    connected core of `m`.  (That *every* such contained protocluster is picked up by the bisect
+    window is left to the correspondence.) -/
+theorem hybrid_groups_are_sharing_classes (clusters : List Proto) (wrap : Option Int) (hg : List (List Proto))
+    (un : List Proto) (hn : clusters.Nodup) (h : findHybrids clusters wrap = .ok (hg, un)) :
+    (∀ a b, Linked (shareGroups clusters) a b → ∃ g, g ∈ hg ∧ a ∈ g ∧ b ∈ g) ∧
+    (∀ g, g ∈ hg → ∃ (m : List Proto) (core : Loc), (∀ x, x ∈ m → x ∈ g) ∧ 2 ≤ m.length ∧
+        (∀ a b, a ∈ m → b ∈ m → Linked (shareGroups clusters) a b) ∧
+        connect (m.map (·.core)) wrap = .ok core ∧
+        ∀ p, p ∈ g → p ∈ m ∨ (p ∈ clusters ∧ (∀ q, q ∈ clusters → q ≠ p → shares p q = false) ∧
+          locationContainsOther core p.core = true)) := by
+  obtain ⟨h1, h2⟩ := findHybrids_classes h hn
+  refine ⟨h1, ?_⟩
+  intro g hg'
+  obtain ⟨m, core, a, b, c, d, e⟩ := h2 g hg'
+  exact ⟨m, core, a, two_le_length b, c, d, e⟩
+
+/-- Interleaved, completeness (any record): two protoclusters linked by a chain of units (hybrid
+    candidates with their combined cores `cc`, unabsorbed protoclusters) with overlapping cores are in
+    one interleaved group — the sorted scan with its early `break` loses no pair. -/
+theorem interleaved_pairs_complete (clusters : List Proto) (cands : List Cand) (wrap : Option Int) (cc : List CandC)
+    (ig : List (List Proto)) (un : List Proto) (hn : clusters.Nodup)
+    (hne : ∀ p, p ∈ clusters → p.core.PartsNonEmpty)
+    (hcc : withCores wrap cands = .ok cc) (h : findInterleaved clusters cands wrap = .ok (ig, un)) :
+    ∀ a b, Linked (overlapGroups (interleaveUnits clusters cc)) a b → ∃ r, r ∈ ig ∧ a ∈ r ∧ b ∈ r := by
+  obtain ⟨G, hG, h1, _⟩ := findInterleaved_groups h hcc hn hne
+  intro a b hl
+  rw [hG]
+  exact (mergeSets_linked G a b).2 (linked_of_cover h1 hl)
+
+/-- Interleaved on a linear record: exactly the chain classes of "cores overlap" -/
+theorem interleaved_groups_are_core_overlap_classes_linear (clusters : List Proto) (cands : List Cand)
+    (cc : List CandC) (ig : List (List Proto)) (un : List Proto) (hn : clusters.Nodup)
+    (hne : ∀ p, p ∈ clusters → p.core.PartsNonEmpty)
+    (hcc : withCores none cands = .ok cc) (h : findInterleaved clusters cands none = .ok (ig, un)) :
+    ∀ a b, (∃ r, r ∈ ig ∧ a ∈ r ∧ b ∈ r) ↔ Linked (overlapGroups (interleaveUnits clusters cc)) a b := by
+  obtain ⟨G, hG, h1, h2⟩ := findInterleaved_groups h hcc hn hne
+  intro a b
+  rw [hG, mergeSets_linked]
+  exact ⟨linked_of_cover (h2 (withCores_none_simple hcc)), linked_of_cover h1⟩
+
+/-- Full statement for circular records: soundness of the origin-crossing step (`core_group`) needs
+    "overlapping the connected span of origin-spanning cores ⇒ overlapping one of them", i.e.
+    `connect_locations` on a ring; the reference comparison of the correspondence carries it. -/
+def InterleavedGroupsAreClasses : Prop :=
+  ∀ (clusters : List Proto) (cands : List Cand) (wrap : Option Int) (cc : List CandC) (ig : List (List Proto))
+    (un : List Proto), clusters.Nodup → (∀ p, p ∈ clusters → p.core.PartsNonEmpty) →
+    withCores wrap cands = .ok cc → findInterleaved clusters cands wrap = .ok (ig, un) →
+    ∀ a b, (∃ r, r ∈ ig ∧ a ∈ r ∧ b ∈ r) ↔ Linked (overlapGroups (interleaveUnits clusters cc)) a b
+
+/-- Neighbouring (any record, unconditional after fixes D501/D502): two protoclusters are in one
+    neighbouring group iff a chain of units (candidates so far, remaining protoclusters) with
+    overlapping extents leads from one to the other -/
+theorem neighbouring_groups_are_overlap_classes (singles : List Proto) (cands : List Cand) (a b : Proto) :
+    (∃ r, r ∈ findNeighbouring singles cands ∧ a ∈ r ∧ b ∈ r) ↔
+      Linked (overlapGroups (neighbourUnits singles cands)) a b :=
+  findNeighbouring_classes singles cands a b
+
+/-- Not proved (left to the correspondence, which compares every implementation output with
+    `Spec.reference` and re-runs every case under permutations of the input): the composition of the
+    three passes with the coordinate table equals the reference, and hence the result as a set does
+    not depend on the order of the input. -/
+def FormationIsOrderIndependent : Prop :=
+  ∀ (ps qs : List Proto) (wrap : Option Int) (cs ds : List Cand), ps.Nodup → ps.Perm qs →
+    formation ps wrap = .ok cs → formation qs wrap = .ok ds →
+    (∀ c, c ∈ cs → ∃ d, d ∈ ds ∧ d.kind = c.kind ∧ d.loc = c.loc ∧ sameMembers c.members d.members = true)
 
 /-! ### non-vacuity -/
 
